@@ -44,6 +44,7 @@ func c18Kinds() []c18Kind {
 		{"ref-file-missing-def", J{"$ref": "lib.json#/$defs/Nope"}, []genlab.File{{Path: "lib.json", Content: `{"$id":"lib","$defs":{"Here":{"type":"object","properties":{"k":{"type":"string"}}}}}`}}},
 		{"array-of-unknown", J{"type": "array", "items": J{"type": "strng"}}, nil},
 		{"object-with-unknown", J{"type": "object", "properties": J{"inner": J{"type": "strng"}}}, nil},
+		{"ref-empty-definition-name", J{"$ref": "#/definitions/"}, nil},
 		{"typed-enum-object-member", J{"type": "string", "enum": A{"a", J{"x": 1}}}, nil},
 		{"mixed-enum-object-member", J{"enum": A{"a", 1, J{"x": 1}}}, nil},
 		{"enum-array-value", J{"enum": A{A{1}}}, nil},
@@ -153,6 +154,15 @@ func c18Positions() []c18Position {
 		}},
 		{"definition-allOf-branch", true, func(f any) ([]genlab.File, []string) {
 			return one(J{"type": "object", "properties": J{"ok": ok, "d": J{"$ref": "#/$defs/D"}}, "$defs": J{"D": J{"allOf": A{q, f}}}})
+		}},
+		{"typeless-root-property", true, func(f any) ([]genlab.File, []string) {
+			return one(J{"properties": J{"ok": ok, "bad": f}})
+		}},
+		{"own-property-next-to-allOf", true, func(f any) ([]genlab.File, []string) {
+			return one(J{"type": "object", "properties": J{"ok": ok, "p": J{"type": "object", "properties": J{"bad": f}, "allOf": A{q}}}})
+		}},
+		{"legacy-definitions-next-to-$defs", true, func(f any) ([]genlab.File, []string) {
+			return one(J{"type": "object", "properties": J{"ok": ok}, "$defs": J{"A": ok}, "definitions": J{"Bad": f}})
 		}},
 		{"additional-properties-next-to-properties", false, func(f any) ([]genlab.File, []string) {
 			return one(J{"type": "object", "properties": J{"ok": ok, "o": J{"type": "object", "properties": J{"k": ok}, "additionalProperties": f}}})
@@ -317,7 +327,7 @@ func c18(ctx *Ctx) {
 		isFault[r.kind] = r.res.Exit != 0
 	}
 	ctx.Run.Cov["fault_kinds_by_consistency_probe"] = isFault
-	for _, want := range []string{"unknown-type", "ref-missing-def", "ref-missing-file", "empty-enum", "enum-object-value", "typed-enum-object-member", "mixed-enum-object-member", "enum-array-value"} {
+	for _, want := range []string{"unknown-type", "ref-missing-def", "ref-missing-file", "empty-enum", "enum-object-value", "typed-enum-object-member", "mixed-enum-object-member", "enum-array-value", "ref-empty-definition-name"} {
 		if !isFault[want] {
 			ctx.Run.Violation("fault-ignored:"+want+":root-property", fmt.Sprintf("C18: %s as a plain root property is accepted with exit status 0 although the statement names it as ungeneratable", want),
 				map[string]any{"kind": "cli", "kindName": want})
@@ -440,6 +450,12 @@ func c18(ctx *Ctx) {
 	byOutcome := map[string]int{}
 	known := func(r *c18Run) string {
 		switch {
+		case r.pos == "typeless-root-property" && r.fault == 1 && r.res.Exit == 0:
+			return "TYPELESS_ROOT_NOT_GENERATED"
+		case r.pos == "own-property-next-to-allOf" && r.fault == 1 && r.res.Exit == 0:
+			return "COMPOSITE_SIBLING_KEYWORDS_DROPPED"
+		case r.pos == "legacy-definitions-next-to-$defs" && r.fault == 1 && r.res.Exit == 0:
+			return "LEGACY_DEFINITIONS_DROPPED_NEXT_TO_DEFS"
 		case r.pos == "definition-allOf-branch" && r.fault == 1 && r.res.Exit == 0:
 			return "UNTYPED_COMPOSITE_DEFINITION_NOT_GENERATED"
 		case r.kind == "empty-enum" && (r.pos == "allOf-branch" || r.pos == "allOf-second-branch" || r.pos == "allOf-branch-after-string-branch" || strings.Contains(r.pos, "-allOf-same-ref-text")) && r.res.Exit == 0:
